@@ -327,6 +327,8 @@ class Reason:
         for e in self.trace:
             if e[0] == "loop":
                 for l, pre in e[2].items():
+                    if not isinstance(l, int):
+                        continue    # loop-carried heap field, not a local
                     if any(isinstance(z, tuple) and z and z[0] == "havoc" and len(z) == 3 and z[2] == l and z[1] == e[1] for z in subterms(nx)):
                         got = self._iter_source(pre, s)
                         if got is not None:
@@ -626,6 +628,8 @@ class Invariants:
             if key not in inv.cands:
                 c = set()
                 for l, pv in pre.items():
+                    if not isinstance(l, int):
+                        continue    # loop-carried heap field, not a local
                     ty = body.locals[l]["ty"]
                     if ty in INT_TYS:
                         if ty == "usize":
